@@ -356,6 +356,70 @@ unsafe fn record_missing(dirfd: libc::c_int, path: *const libc::c_char) {
     });
 }
 
+// The same for the environment: names the calls ask for and that are not set. `std::env::var*`
+// goes through libc's `getenv`, which is this function in the harness binary.
+
+thread_local! {
+    static ENV_PROBES: RefCell<Option<Vec<String>>> = const { RefCell::new(None) };
+}
+
+pub fn set_env_probe_recording(on: bool) {
+    let _ = ENV_PROBES.try_with(|p| {
+        if let Ok(mut p) = p.try_borrow_mut() {
+            if on {
+                if p.is_none() {
+                    *p = Some(Vec::new());
+                }
+            } else {
+                *p = None;
+            }
+        }
+    });
+}
+
+pub fn take_env_probes() -> Vec<String> {
+    ENV_PROBES
+        .try_with(|p| p.try_borrow_mut().ok().and_then(|mut p| p.as_mut().map(std::mem::take)))
+        .ok()
+        .flatten()
+        .unwrap_or_default()
+}
+
+extern "C" {
+    static environ: *const *const libc::c_char;
+}
+
+#[no_mangle]
+pub unsafe extern "C" fn getenv(name: *const libc::c_char) -> *mut libc::c_char {
+    if name.is_null() {
+        return std::ptr::null_mut();
+    }
+    let wanted = std::ffi::CStr::from_ptr(name).to_bytes();
+    let mut entry = environ;
+    if !entry.is_null() && !wanted.is_empty() {
+        while !(*entry).is_null() {
+            let bytes = std::ffi::CStr::from_ptr(*entry).to_bytes();
+            if bytes.len() > wanted.len() && bytes[wanted.len()] == b'=' && &bytes[..wanted.len()] == wanted {
+                return (*entry).add(wanted.len() + 1) as *mut libc::c_char;
+            }
+            entry = entry.add(1);
+        }
+    }
+    let _quiet = AllocPointsSuspended::new();
+    let _ = ENV_PROBES.try_with(|p| {
+        if let Ok(mut p) = p.try_borrow_mut() {
+            if let Some(list) = p.as_mut() {
+                let text = String::from_utf8_lossy(wanted).into_owned();
+                // (the harness's own switches are read through the same function)
+                if !text.starts_with("VERIF_") && list.len() < 32 && !list.contains(&text) {
+                    list.push(text);
+                }
+            }
+        }
+    });
+    std::ptr::null_mut()
+}
+
 unsafe fn errno() -> libc::c_int {
     *libc::__errno_location()
 }
